@@ -364,7 +364,21 @@ def r_pure(spec, data):
     return False
 
 
-RECIPES = {"push_phase_shift": r_push_phase_shift, "pure": r_pure, "policy_vs_actor": r_policy_vs_actor, "push_ts_input": r_push_ts_input, "set_delay": r_set_delay, "push_expected_nonblocking": r_push_expected_nonblocking}
+def r_bounded_case(spec, data):
+    """replays a counter-model as a case of one of the bounded scripts (bounded/<script>: run_case(case) -> (list of wrong things, n))"""
+    import importlib.util
+    path = os.path.join(os.path.dirname(os.path.dirname(os.path.abspath(__file__))), "bounded", spec["script"])
+    sp = importlib.util.spec_from_file_location("bounded_script", path)
+    m = importlib.util.module_from_spec(sp)
+    sp.loader.exec_module(m)
+    print("case:", json.dumps(spec["case"]))
+    bad, _ = m.run_case(spec["case"])
+    for b in bad[:6]:
+        print(b)
+    return bool(bad)
+
+
+RECIPES = {"bounded_case": r_bounded_case, "push_phase_shift": r_push_phase_shift, "pure": r_pure, "policy_vs_actor": r_policy_vs_actor, "push_ts_input": r_push_ts_input, "set_delay": r_set_delay, "push_expected_nonblocking": r_push_expected_nonblocking}
 
 
 def main():
